@@ -12,6 +12,12 @@ package main
 // translation error (gen exits non-zero), never a silent default. Function literals are scanned with the set held
 // where they are written; `go` statements with the empty set.
 //
+// Entries of the held set: "W:x" after x.Lock(), "R:x" after x.RLock() (a WRITE under a read lock is reported as
+// `.rmutex` and rejected by the Lean side), "O:x" inside the function passed to x.Do of a sync.Once and after that
+// call (sync.Once: the completion of f synchronizes before the return of every Do). A private helper listed in
+// `helpers` is scanned with the lock its callers must hold, and every call site is checked for it: a call without
+// the lock is emitted as an unguarded write site "<type>.<helper>()".
+//
 // Every row carries a numeric object id (`oid`, the rank of the object name among the table's object names) so that
 // the Lean side can reason about objects without comparing strings.
 
@@ -35,12 +41,19 @@ type lockTarget struct {
 	// randVars: additionally track EVERY package-level variable whose type is *math/rand.Rand or math/rand.Rand
 	// (a rand.Rand is not safe for concurrent use; template functions and string helpers run in every instance)
 	randVars bool
+	// helpers: private methods that run with a mutex held by every caller (method name -> held-set entry, "W:rwMu")
+	helpers map[string]string
 }
 
 var lockTargets = []lockTarget{
 	{pkg: "lib/mp", typ: "NextIterator"},
 	{pkg: "lib/str", vars: []string{"randSource"}, randVars: true},
 	{pkg: "components/providers/scenario/templater", randVars: true},
+	// the gun packages: any package-level rand.Rand they introduce is used by every instance
+	{pkg: "components/guns/http", randVars: true},
+	{pkg: "components/guns/http_scenario", randVars: true},
+	{pkg: "components/guns/grpc", randVars: true},
+	{pkg: "components/guns/grpc/scenario", randVars: true},
 	{pkg: "components/guns/grpc/scenario", typ: "TextTemplater"},
 	{pkg: "components/providers/scenario/http/templater", typ: "TextTemplater"},
 	{pkg: "components/providers/scenario/http/templater", typ: "HTMLTemplater"},
@@ -56,6 +69,15 @@ var lockTargets = []lockTarget{
 	{pkg: "components/providers/http/decoders", typ: "jsonlineDecoder", methods: []string{"Release"}},
 	{pkg: "core/provider", typ: "AmmoQueue", methods: []string{"Acquire", "Release"}},
 	{pkg: "lib/netutil", typ: "SimpleDNSCache"},
+	// schedules: one RPS schedule object is shared by all instances of a pool unless rps-per-instance is set
+	{pkg: "core/schedule", typ: "StartSync"},
+	{pkg: "core/schedule", typ: "doAtSchedule"},
+	{pkg: "core/schedule", typ: "unlimitedSchedule"},
+	{pkg: "core/schedule", typ: "compositeSchedule", helpers: map[string]string{"startNext": "W:rwMu"}},
+	{pkg: "core/coreutil", typ: "callbackOnFinishSchedule"},
+	// aggregators: Report is called by every instance
+	{pkg: "core/aggregator/netsample", typ: "phoutAggregator", methods: []string{"Report"}},
+	{pkg: "core/aggregator", typ: "Reporter", methods: []string{"Report", "dropSample"}},
 }
 
 func init() {
@@ -78,7 +100,7 @@ type lockRow struct {
 func typeGuard(t types.Type) string {
 	if n, ok := t.(*types.Named); ok && n.Obj().Pkg() != nil {
 		switch n.Obj().Pkg().Path() {
-		case "sync/atomic":
+		case "sync/atomic", "go.uber.org/atomic":
 			return ".atomic"
 		case "sync":
 			switch n.Obj().Name() {
@@ -98,6 +120,10 @@ func typeGuard(t types.Type) string {
 func isMutexType(t types.Type) bool {
 	s := t.String()
 	return strings.HasSuffix(s, "sync.Mutex") || strings.HasSuffix(s, "sync.RWMutex")
+}
+
+func isOnceType(t types.Type) bool {
+	return strings.HasSuffix(derefType(t).String(), "sync.Once")
 }
 
 func isRandType(t types.Type) bool {
@@ -144,6 +170,55 @@ func (s *lockScan) lockCall(e ast.Expr) (string, string) {
 		name = name[i+1:]
 	}
 	return name, op
+}
+
+// onceCall recognises X.Do(f) on a sync.Once; returns the name of X and the argument.
+func (s *lockScan) onceCall(e ast.Expr) (string, ast.Expr) {
+	call, ok := e.(*ast.CallExpr)
+	if !ok || len(call.Args) != 1 {
+		return "", nil
+	}
+	sel, ok := call.Fun.(*ast.SelectorExpr)
+	if !ok || sel.Sel.Name != "Do" {
+		return "", nil
+	}
+	tv, ok := s.p.TypesInfo.Types[sel.X]
+	if !ok || !isOnceType(tv.Type) {
+		return "", nil
+	}
+	name := types.ExprString(sel.X)
+	if i := strings.LastIndex(name, "."); i >= 0 {
+		name = name[i+1:]
+	}
+	return name, call.Args[0]
+}
+
+func isPanicCall(e ast.Expr) bool {
+	call, ok := e.(*ast.CallExpr)
+	if !ok {
+		return false
+	}
+	id, ok := call.Fun.(*ast.Ident)
+	return ok && id.Name == "panic"
+}
+
+// guardOf: the protection a held set gives: a write lock, else a read lock, else a Once.
+func guardOf(held []string) string {
+	for _, pre := range []string{"W:", "R:", "O:"} {
+		for _, h := range held {
+			if strings.HasPrefix(h, pre) {
+				switch pre {
+				case "W:":
+					return fmt.Sprintf(".mutex %q", h[2:])
+				case "R:":
+					return fmt.Sprintf(".rmutex %q", h[2:])
+				default:
+					return fmt.Sprintf(".once %q", h[2:])
+				}
+			}
+		}
+	}
+	return ""
 }
 
 func baseOf(e ast.Expr) ast.Expr {
@@ -210,18 +285,29 @@ func (s *lockScan) scanExprs(n ast.Node) {
 		if !ok {
 			return true
 		}
+		if call, ok := e.(*ast.CallExpr); ok && s.recv != nil {
+			if sel, ok := call.Fun.(*ast.SelectorExpr); ok {
+				if id, ok := sel.X.(*ast.Ident); ok && s.p.TypesInfo.Uses[id] == s.recv {
+					if need, ok := s.tgt.helpers[sel.Sel.Name]; ok && !contains(s.held, need) {
+						// the helper relies on its caller holding the lock: this caller does not
+						s.rows = append(s.rows, lockRow{obj: s.tgt.pkg + "." + s.tgt.typ + "." + sel.Sel.Name + "()", method: s.fn,
+							write: true, unguarded: true})
+					}
+				}
+			}
+		}
 		obj, ty, ok := s.target(e)
 		if !ok {
 			return true
 		}
-		if isMutexType(ty) {
+		if isMutexType(ty) || isOnceType(ty) {
 			return false
 		}
 		row := lockRow{obj: obj, method: s.fn, write: s.writes[e]}
 		if g := typeGuard(derefType(ty)); g != "" {
 			row.guard = g
-		} else if len(s.held) > 0 {
-			row.guard = fmt.Sprintf(".mutex %q", s.held[0])
+		} else if g := guardOf(s.held); g != "" {
+			row.guard = g
 		} else {
 			row.unguarded = true
 		}
@@ -251,7 +337,18 @@ func (s *lockScan) scanStmts(list []ast.Stmt, held []string) ([]string, bool) {
 	return held, false
 }
 
+func dropOnce(a []string) []string {
+	var out []string
+	for _, h := range a {
+		if !strings.HasPrefix(h, "O:") {
+			out = append(out, h)
+		}
+	}
+	return out
+}
+
 func sameHeld(a, b []string) bool {
+	a, b = dropOnce(a), dropOnce(b)
 	if len(a) != len(b) {
 		return false
 	}
@@ -285,16 +382,32 @@ func (s *lockScan) scanStmt(st ast.Stmt, held []string) ([]string, bool) {
 	switch x := st.(type) {
 	case *ast.ExprStmt:
 		if name, op := s.lockCall(x.X); name != "" {
-			if op == "Lock" || op == "RLock" {
-				return append(append([]string(nil), held...), name), false
+			switch op {
+			case "Lock":
+				return append(append([]string(nil), held...), "W:"+name), false
+			case "RLock":
+				return append(append([]string(nil), held...), "R:"+name), false
+			}
+			drop := "W:" + name
+			if op == "RUnlock" {
+				drop = "R:" + name
 			}
 			var keep []string
 			for _, h := range held {
-				if h != name {
+				if h != drop {
 					keep = append(keep, h)
 				}
 			}
 			return keep, false
+		}
+		if name, arg := s.onceCall(x.X); name != "" {
+			in := append(append([]string(nil), held...), "O:"+name)
+			s.exprs(in, arg)
+			return in, false // what follows is ordered after the one execution of the function
+		}
+		if isPanicCall(x.X) {
+			s.exprs(held, x)
+			return held, true
 		}
 		s.exprs(held, x)
 	case *ast.DeferStmt:
@@ -365,7 +478,11 @@ func (s *lockScan) scanStmt(st ast.Stmt, held []string) ([]string, bool) {
 }
 
 func (s *lockScan) scanBody(body *ast.BlockStmt) {
-	s.scanStmts(body.List, nil)
+	var held []string
+	if h, ok := s.tgt.helpers[s.fn]; ok {
+		held = []string{h}
+	}
+	s.scanStmts(body.List, held)
 }
 
 func contains(xs []string, x string) bool {
@@ -388,6 +505,7 @@ func loadMany() map[string]*packages.Package {
 			paths = append(paths, full)
 		}
 	}
+	paths = append(paths, enginePkg)
 	cfg := &packages.Config{Mode: packages.NeedName | packages.NeedSyntax | packages.NeedTypes | packages.NeedTypesInfo |
 		packages.NeedFiles | packages.NeedImports | packages.NeedDeps, Dir: repo, BuildFlags: []string{"-tags=verif"}}
 	pkgs, err := packages.Load(cfg, paths...)
@@ -404,6 +522,79 @@ func loadMany() map[string]*packages.Package {
 		out[p.PkgPath] = p
 	}
 	return out
+}
+
+const enginePkg = "github.com/yandex/pandora/core/engine"
+
+// locksEngineFacts: how the engine gets and uses guns, read off core/engine: every call of the pool's gun factory
+// (`NewGun` / the `newGun` dependency) with the function it occurs in and whether it sits inside a loop; where the
+// `newGun` dependency is wired from; every call of a gun's `Shoot` with its receiver expression.
+func locksEngineFacts(t *tr, p *packages.Package) string {
+	if p == nil {
+		t.errs = append(t.errs, "package core/engine not loaded")
+		return ""
+	}
+	var factory, wiring, shoots []string
+	for _, f := range p.Syntax {
+		if strings.HasSuffix(p.Fset.Position(f.Pos()).Filename, "_test.go") {
+			continue
+		}
+		for _, d := range f.Decls {
+			fd, ok := d.(*ast.FuncDecl)
+			if !ok || fd.Body == nil {
+				continue
+			}
+			var walk func(n ast.Node, inLoop bool)
+			walk = func(n ast.Node, inLoop bool) {
+				ast.Inspect(n, func(m ast.Node) bool {
+					switch x := m.(type) {
+					case *ast.ForStmt:
+						if m != n {
+							walk(x, true)
+							return false
+						}
+					case *ast.RangeStmt:
+						if m != n {
+							walk(x, true)
+							return false
+						}
+					case *ast.CallExpr:
+						if sel, ok := x.Fun.(*ast.SelectorExpr); ok {
+							switch sel.Sel.Name {
+							case "NewGun", "newGun":
+								factory = append(factory, fmt.Sprintf("(%q, %q, %v)", fd.Name.Name, types.ExprString(x.Fun), inLoop))
+							case "Shoot":
+								shoots = append(shoots, fmt.Sprintf("(%q, %q)", fd.Name.Name, types.ExprString(sel.X)))
+							}
+						}
+					case *ast.KeyValueExpr:
+						if id, ok := x.Key.(*ast.Ident); ok && (id.Name == "newGun" || id.Name == "gun") {
+							wiring = append(wiring, fmt.Sprintf("(%q, %q)", fd.Name.Name, id.Name+": "+types.ExprString(x.Value)))
+						}
+					case *ast.AssignStmt:
+						for i, l := range x.Lhs {
+							if sel, ok := l.(*ast.SelectorExpr); ok && (sel.Sel.Name == "newGun" || sel.Sel.Name == "NewGun" || sel.Sel.Name == "gun") && i < len(x.Rhs) {
+								wiring = append(wiring, fmt.Sprintf("(%q, %q)", fd.Name.Name, types.ExprString(l)+" = "+types.ExprString(x.Rhs[i])))
+							}
+						}
+					}
+					return true
+				})
+			}
+			walk(fd.Body, false)
+		}
+	}
+	sort.Strings(factory)
+	sort.Strings(wiring)
+	sort.Strings(shoots)
+	var b strings.Builder
+	b.WriteString("\n/-- regenerated from core/engine: every call of the gun factory (function, callee, inside a loop?) -/\n")
+	b.WriteString("def gunFactoryCalls : List (String × String × Bool) := [" + strings.Join(factory, ", ") + "]\n")
+	b.WriteString("\n/-- where the instances' `newGun` dependency (and any `gun` field) is assigned from -/\n")
+	b.WriteString("def gunWiring : List (String × String) := [" + strings.Join(wiring, ", ") + "]\n")
+	b.WriteString("\n/-- every call of `Shoot` in the engine: (function, receiver) -/\n")
+	b.WriteString("def shootCalls : List (String × String) := [" + strings.Join(shoots, ", ") + "]\n")
+	return b.String()
 }
 
 func locksExtra(t *tr) string {
@@ -540,5 +731,6 @@ func locksExtra(t *tr) string {
 	b.WriteString("def table : List C11LockRow := [\n")
 	b.WriteString(strings.Join(lines, ",\n"))
 	b.WriteString("\n]\n")
+	b.WriteString(locksEngineFacts(t, loaded[enginePkg]))
 	return b.String()
 }
